@@ -10,6 +10,7 @@ use turmoil_net::{
     Transport, UdpDatagram,
 };
 
+use crate::addr_form;
 use crate::util::*;
 
 #[derive(Clone, Debug)]
@@ -134,6 +135,12 @@ pub struct World {
     pub slots: BTreeMap<u32, Slot>,
     pub hosts: Vec<HostId>,
     pub addrs: Vec<Vec<Ip>>,
+    /// chooses between equivalent API entry points (deterministic per CFG line)
+    pub sel: Sel,
+    /// disagreements between equivalent calls / getters: printed as `OBS xcheck ...`
+    pub xfail: Vec<String>,
+    /// how often each entry point was taken
+    pub ep: BTreeMap<&'static str, u64>,
     pub guard: EnterGuard,
 }
 
@@ -194,17 +201,116 @@ impl World {
             let ips: Vec<std::net::IpAddr> = a.iter().map(|x| x.to_ip()).collect();
             hosts.push(net.add_host(ips));
         }
+        // one more host, registered by name: DNS / hostname forms are cross-checked on it,
+        // it never takes part in the modelled traffic
+        let mut xfail: Vec<String> = Vec::new();
+        let xhost = net.add_host("verifx");
+        let xip: std::net::IpAddr = "192.168.0.1".parse().unwrap();
+        if net.lookup("verifx") != xip || net.lookup("10.0.0.10") != Ip::v4(10).to_ip() {
+            xfail.push("dns-lookup".into());
+        }
+        let ids: Vec<HostId> = net.host_ids().collect();
+        if ids.len() != hosts.len() + 1 || ids[..hosts.len()] != hosts[..] || ids[hosts.len()] != xhost {
+            xfail.push("host-ids".into());
+        }
         let guard = net.enter();
         if let Some((lo, hi)) = eph {
             for h in &hosts {
                 turmoil_net::verif_table_set_ephemeral_range(*h, lo, hi);
             }
         }
-        World { slots: BTreeMap::new(), hosts, addrs: addrs.to_vec(), guard }
+        {
+            use turmoil_net::lookup_host;
+            if lookup_host("verifx") != Some(xip)
+                || lookup_host("nope").is_some()
+                || lookup_host("localhost") != Some("127.0.0.1".parse().unwrap())
+                || lookup_host("fd00::a") != Some(Ip::v6(10).to_ip())
+            {
+                xfail.push("lookup-host".into());
+            }
+            guard.set_current(xhost);
+            let a = now_or_panic(UdpSocket::bind("verifx:6001"));
+            let b = now_or_panic(UdpSocket::bind(("verifx", 6002u16)));
+            let c = now_or_panic(TcpListener::bind(("verifx".to_string(), 6001u16)));
+            let d = now_or_panic(UdpSocket::bind("nope:1"));
+            let e = now_or_panic(UdpSocket::bind("verifx:6001".to_string()));
+            match (&a, &b, &c) {
+                (Ok(a), Ok(b), Ok(c)) => {
+                    if a.local_addr().ok() != Some(std::net::SocketAddr::new(xip, 6001))
+                        || b.local_addr().ok() != Some(std::net::SocketAddr::new(xip, 6002))
+                        || c.local_addr().ok() != Some(std::net::SocketAddr::new(xip, 6001))
+                    {
+                        xfail.push("hostname-bind-addr".into());
+                    }
+                }
+                _ => xfail.push("hostname-bind".into()),
+            }
+            if !matches!(&d, Err(e) if e.kind() == std::io::ErrorKind::NotFound) {
+                xfail.push("unknown-hostname".into());
+            }
+            if !matches!(&e, Err(e) if e.kind() == std::io::ErrorKind::AddrInUse) {
+                xfail.push("hostname-rebind".into());
+            }
+            let n1 = netstat("verifx");
+            let n2 = netstat(xip);
+            if n1 != n2 || n1.entries.len() != 3 || format!("{n1}").lines().count() != 4 {
+                xfail.push("netstat-by-name".into());
+            }
+            drop((a, b, c, d, e));
+            if !netstat("verifx").entries.is_empty() {
+                xfail.push("netstat-after-close".into());
+            }
+        }
+        let sel = Sel::from_str(&cfg_line(addrs));
+        World { slots: BTreeMap::new(), hosts, addrs: addrs.to_vec(), sel, xfail, ep: BTreeMap::new(), guard }
     }
 
     fn cur(&self, h: usize) {
-        self.guard.set_current(self.hosts[h]);
+        // both forms of pinning the current host
+        if (h + self.slots.len()) % 2 == 0 {
+            self.guard.set_current(self.hosts[h]);
+        } else {
+            turmoil_net::set_current(self.hosts[h]);
+        }
+    }
+
+    fn took(&mut self, what: &'static str) {
+        *self.ep.entry(what).or_insert(0) += 1;
+    }
+
+    /// Socket-option round trips and the two send-side gates that queue nothing
+    /// (broadcast without SO_BROADCAST, oversize datagram).
+    fn udp_side_checks(&mut self, sock: &UdpSocket, v6: bool) {
+        self.took("udp-options");
+        let ok = sock.broadcast().ok() == Some(false)
+            && sock.set_broadcast(true).is_ok()
+            && sock.broadcast().ok() == Some(true)
+            && sock.set_broadcast(false).is_ok()
+            && sock.ttl().ok() == Some(64)
+            && sock.set_ttl(7).is_ok()
+            && sock.ttl().ok() == Some(7)
+            && sock.set_ttl(256).is_err()
+            && sock.set_ttl(64).is_ok();
+        if !ok {
+            self.xfail.push("udp-options".into());
+        }
+        if !v6 {
+            let r = sock.try_send_to(b"x", "10.0.0.255:9".parse().unwrap());
+            if !matches!(&r, Err(e) if e.kind() == std::io::ErrorKind::PermissionDenied) {
+                self.xfail.push("broadcast-gate".into());
+            }
+            let big = vec![0u8; 1473];
+            let r = sock.try_send_to(&big, "10.0.0.90:9".parse().unwrap());
+            if !matches!(&r, Err(e) if e.raw_os_error() == Some(90)) {
+                self.xfail.push("emsgsize-v4".into());
+            }
+        } else {
+            let big = vec![0u8; 1453];
+            let r = sock.try_send_to(&big, "[fd00::5a]:9".parse().unwrap());
+            if !matches!(&r, Err(e) if e.raw_os_error() == Some(90)) {
+                self.xfail.push("emsgsize-v6".into());
+            }
+        }
     }
 
     /// (host, kind, local addr, peer addr) of a slot, queried on the right host.
@@ -244,9 +350,17 @@ impl World {
                     return "nohost".into();
                 }
                 self.cur(*h);
-                match now_or_panic(UdpSocket::bind(ip.sa(*port))) {
+                let f = self.sel.next();
+                self.took("bind-addr-form");
+                match addr_form!(f, ip.sa(*port), a => now_or_panic(UdpSocket::bind(a))) {
                     Ok(sock) => {
                         let la = sock.local_addr().unwrap();
+                        if sock.peer_addr().is_ok() {
+                            self.xfail.push("fresh-udp-has-peer".into());
+                        }
+                        if s % 2 == 1 {
+                            self.udp_side_checks(&sock, ip.v6);
+                        }
                         self.slots.insert(*s, Slot::Udp(*h, sock));
                         format!("ok {} {}", ip_tok(la.ip()), la.port())
                     }
@@ -258,7 +372,8 @@ impl World {
                     return "nohost".into();
                 }
                 self.cur(*h);
-                match now_or_panic(TcpListener::bind(ip.sa(*port))) {
+                let f = self.sel.next();
+                match addr_form!(f, ip.sa(*port), a => now_or_panic(TcpListener::bind(a))) {
                     Ok(l) => {
                         let la = l.local_addr().unwrap();
                         self.slots.insert(*s, Slot::Lsn(*h, l));
@@ -275,8 +390,14 @@ impl World {
                     return "noslot".into();
                 }
                 self.cur(*h);
-                match now_or_panic(sock.connect(ip.sa(*port))) {
-                    Ok(()) => "ok".into(),
+                let f = self.sel.next();
+                match addr_form!(f, ip.sa(*port), a => now_or_panic(sock.connect(a))) {
+                    Ok(()) => {
+                        if sock.peer_addr().ok() != Some(ip.sa(*port)) {
+                            self.xfail.push("udp-peer-addr".into());
+                        }
+                        "ok".into()
+                    }
                     Err(e) => format!("err {}", err_tok(&e)),
                 }
             }
@@ -285,7 +406,14 @@ impl World {
                     return "nohost".into();
                 }
                 self.cur(*h);
-                let mut fut = Box::pin(TcpStream::connect(ip.sa(*port)));
+                let f = self.sel.next();
+                let target = ip.sa(*port);
+                let mut fut: std::pin::Pin<Box<dyn std::future::Future<Output = std::io::Result<TcpStream>>>> = match f % 4 {
+                    0 => Box::pin(TcpStream::connect(target)),
+                    1 => Box::pin(TcpStream::connect(target.to_string())),
+                    2 => Box::pin(TcpStream::connect((target.ip(), target.port()))),
+                    _ => Box::pin(TcpStream::connect((target.ip().to_string(), target.port()))),
+                };
                 match poll_once(fut.as_mut()) {
                     Poll::Ready(Ok(_)) => return "other:immediate".into(),
                     Poll::Ready(Err(e)) => {
@@ -322,7 +450,14 @@ impl World {
                     return "nohost".into();
                 }
                 self.cur(*h);
-                let mut fut = Box::pin(TcpStream::connect(ip.sa(*port)));
+                let f = self.sel.next();
+                let target = ip.sa(*port);
+                let mut fut: std::pin::Pin<Box<dyn std::future::Future<Output = std::io::Result<TcpStream>>>> = match f % 4 {
+                    0 => Box::pin(TcpStream::connect(target)),
+                    1 => Box::pin(TcpStream::connect(target.to_string())),
+                    2 => Box::pin(TcpStream::connect((target.ip(), target.port()))),
+                    _ => Box::pin(TcpStream::connect((target.ip().to_string(), target.port()))),
+                };
                 match poll_once(fut.as_mut()) {
                     Poll::Ready(Ok(_)) => return "other:immediate".into(),
                     Poll::Ready(Err(e)) => {
@@ -353,13 +488,19 @@ impl World {
                     return "noslot".into();
                 }
                 self.cur(*h);
-                let r = {
+                let r = if (*s + *ns) % 2 == 0 {
                     let mut f = Box::pin(l.accept());
                     poll_once(f.as_mut())
+                } else {
+                    let mut cx = std::task::Context::from_waker(std::task::Waker::noop());
+                    l.poll_accept(&mut cx)
                 };
                 match r {
                     Poll::Ready(Ok((st, peer))) => {
                         let la = st.local_addr().unwrap();
+                        if st.peer_addr().ok() != Some(peer) {
+                            self.xfail.push("accept-peer".into());
+                        }
                         self.slots.insert(*ns, Slot::Stream(*h, st));
                         format!("ok {} {}", sa_tok(peer), sa_tok(la))
                     }
@@ -386,7 +527,13 @@ impl World {
                     return "noslot".into();
                 }
                 self.cur(*h);
-                match sock.try_send_to(&tag_bytes(*tag), ip.sa(*port)) {
+                let f = self.sel.next();
+                let r = if f % 3 == 0 {
+                    sock.try_send_to(&tag_bytes(*tag), ip.sa(*port))
+                } else {
+                    addr_form!(f / 3, ip.sa(*port), a => now_or_panic(sock.send_to(&tag_bytes(*tag), a)))
+                };
+                match r {
                     Ok(_) => {
                         let w = self.pump();
                         format!("ok wire={}", join(&w, ","))
@@ -402,7 +549,12 @@ impl World {
                     return "noslot".into();
                 }
                 self.cur(*h);
-                match sock.try_send(&tag_bytes(*tag)) {
+                let r = if self.sel.next() % 2 == 0 {
+                    sock.try_send(&tag_bytes(*tag))
+                } else {
+                    now_or_panic(sock.send(&tag_bytes(*tag)))
+                };
+                match r {
                     Ok(_) => {
                         let w = self.pump();
                         format!("ok wire={}", join(&w, ","))
@@ -457,7 +609,52 @@ impl World {
                         self.guard.set_current(self.hosts[*h]);
                         let mut got = Vec::new();
                         let mut buf = [0u8; 64];
-                        while let Ok((n, from)) = sock.try_recv_from(&mut buf) {
+                        let connected = sock.peer_addr().is_ok();
+                        loop {
+                            // peek first (both forms), then consume through one of the receive calls
+                            let f = self.sel.next();
+                            let mut pb = [0u8; 64];
+                            let peeked = {
+                                let mut fut = Box::pin(sock.peek_from(&mut pb));
+                                match poll_once(fut.as_mut()) {
+                                    Poll::Ready(Ok(x)) => Some(x),
+                                    _ => None,
+                                }
+                            };
+                            let Some((pn, pfrom)) = peeked else {
+                                if sock.try_recv_from(&mut buf).is_ok() {
+                                    self.xfail.push("peek-pending-but-recv-ready".into());
+                                }
+                                break;
+                            };
+                            let ptag = tag_of(&pb[..pn]);
+                            let (n, from) = match f % if connected { 4 } else { 2 } {
+                                0 => match sock.try_recv_from(&mut buf) {
+                                    Ok(x) => x,
+                                    Err(_) => break,
+                                },
+                                1 => {
+                                    let mut fut = Box::pin(sock.recv_from(&mut buf));
+                                    match poll_once(fut.as_mut()) {
+                                        Poll::Ready(Ok(x)) => x,
+                                        _ => break,
+                                    }
+                                }
+                                2 => match sock.try_recv(&mut buf) {
+                                    Ok(n) => (n, pfrom),
+                                    Err(_) => break,
+                                },
+                                _ => {
+                                    let mut fut = Box::pin(sock.recv(&mut buf));
+                                    match poll_once(fut.as_mut()) {
+                                        Poll::Ready(Ok(n)) => (n, pfrom),
+                                        _ => break,
+                                    }
+                                }
+                            };
+                            if tag_of(&buf[..n]) != ptag || from != pfrom {
+                                self.xfail.push(format!("peek-vs-recv:{}", ptag));
+                            }
                             got.push(format!("{}@{}", tag_of(&buf[..n]), sa_tok(from)));
                         }
                         if !got.is_empty() {
@@ -533,13 +730,14 @@ fn tcp_pkt(src: Ip, sport: u16, dst: Ip, dport: u16, flags: TcpFlags) -> Packet 
 // ---------------------------------------------------------------- generators
 
 pub struct Stats {
+    pub ep: BTreeMap<&'static str, u64>,
     pub ops: BTreeMap<&'static str, u64>,
     pub obs: BTreeMap<String, u64>,
 }
 
 impl Stats {
     pub fn new() -> Stats {
-        Stats { ops: BTreeMap::new(), obs: BTreeMap::new() }
+        Stats { ep: BTreeMap::new(), ops: BTreeMap::new(), obs: BTreeMap::new() }
     }
     fn note(&mut self, op: &Op, obs: &str) {
         let name = match op {
@@ -599,6 +797,12 @@ impl Out {
         st.note(&op, &obs);
         self.lines.push(op.line());
         self.lines.push(format!("OBS {obs}"));
+        for x in w.xfail.drain(..) {
+            self.lines.push(format!("OBS xcheck {x}"));
+        }
+        for (k, v) in std::mem::take(&mut w.ep) {
+            *st.ep.entry(k).or_insert(0) += v;
+        }
         obs
     }
 }
